@@ -1,7 +1,11 @@
 //! oalv: runtime-monitoring harness for oxlip-lang/oal (see /verif/DESIGN.md).
 
 mod checks;
+mod drive;
+mod gen;
+mod oracle;
 mod pool;
+mod reference;
 mod util;
 
 use std::path::PathBuf;
@@ -59,6 +63,41 @@ fn main() {
                 .spawn(move || pool::worker_main(wl.as_ref(), seed))
                 .unwrap();
             let _ = h.join();
+        }
+        "debug-wt" => {
+            // oalv debug-wt <seed> <from> <to>: print generated programs whose reference is undefined or that are rejected
+            let seed: u64 = args[2].parse().unwrap();
+            let from: u64 = args[3].parse().unwrap();
+            let to: u64 = args[4].parse().unwrap();
+            let what = args.get(5).map(|s| s.as_str()).unwrap_or("all");
+            for idx in from..to {
+                let mut rng = util::Rng::for_case(seed, "c02", idx);
+                let prog = gen::wt::generate(&mut rng, &checks::c02::wt_cfg());
+                let printed = gen::print::print_program(&prog);
+                let src = checks::common::sources_of(&printed);
+                let exp = reference::eval::expected(&prog);
+                let out = drive::pipeline::run(&src, None);
+                let show = match what {
+                    "undefined" => matches!(exp, Err(reference::eval::RefErr::Undefined(_))),
+                    "rejected" => matches!(out, drive::pipeline::Outcome::Rejected(_)),
+                    _ => true,
+                };
+                if show {
+                    println!("=== idx {idx}");
+                    for (f, t) in &src.files {
+                        println!("--- {f}\n{t}");
+                    }
+                    match &exp {
+                        Ok(reference::eval::Expected::Doc { flags, .. }) => println!("reference: doc flags={flags:?}"),
+                        Ok(e) => println!("reference: {e:?}"),
+                        Err(e) => println!("reference: ERR {e:?}"),
+                    }
+                    match &out {
+                        drive::pipeline::Outcome::Doc { .. } => println!("impl: doc"),
+                        o => println!("impl: {o:?}"),
+                    }
+                }
+            }
         }
         "replay" => {
             if args.len() < 3 {
